@@ -99,6 +99,40 @@ func (i *interpreter) isLibFn(fn *ssa.Function) bool {
 	return strings.HasPrefix(fn.Pkg.Pkg.Path(), "github.com/samber/ro")
 }
 
+// libContext: the access is made by the library or on its behalf — by a samber/ro function, or by a
+// function of another package (math/big, strings, ...) called from one: the memory such a callee
+// touches through its arguments belongs to the caller.  Callees of harness code do not count.
+func (i *interpreter) libContext(fr *frame) bool {
+	if fr.libctx != 0 {
+		return fr.libctx > 0
+	}
+	res := false
+	for f := fr; f != nil; f = f.caller {
+		if f.fn == nil {
+			continue
+		}
+		if i.isHarnessFn(f.fn) {
+			break
+		}
+		if i.isLibFn(f.fn) {
+			res = true
+			break
+		}
+		// the modelled synchronisation primitives keep their own bookkeeping
+		if f.fn.Pkg != nil {
+			if p := f.fn.Pkg.Pkg.Path(); p == "sync" || p == "sync/atomic" || p == "context" || p == "time" {
+				break
+			}
+		}
+	}
+	if res {
+		fr.libctx = 1
+	} else {
+		fr.libctx = -1
+	}
+	return res
+}
+
 // access records a plain load/store of a heap cell and checks it against
 // earlier unordered accesses.
 func (r *run) access(fr *frame, addr *value, write bool, instr ssa.Instruction) {
@@ -120,7 +154,7 @@ func (r *run) access(fr *frame, addr *value, write bool, instr ssa.Instruction) 
 		return
 	}
 	t := fr.t
-	lib := r.i.isLibFn(fr.fn)
+	lib := r.i.libContext(fr)
 	m := r.cellMeta[addr]
 	if m == nil {
 		m = &cellMeta{}
